@@ -102,7 +102,25 @@ class C03(Prop):
                         for entry in ("met forced-oxid name:w 1 other", "met auto name:w 1 other", "call w",
                                       "loop 2 1 w;w,w", "loop 0 1 w"):
                             cases.append({"lines": base + [entry], "note": "exhaustive ceiling x declared caps x entry"})
-        return [{"name": f"ceilings x declared capability sets (subsets of 3 caps, size <= {size}) x attribute style x entry point",
+        # registration histories: allowed tool used, then the same name re-registered outside the ceiling (and back)
+        entries = ["met forced-oxid name:w 1 other", "met auto name:w 1 other", "call w", "loop 2 1 w;w"]
+        hist = []
+        for al in ([], [0], [0, 1]):
+            ok_req = al[:1]
+            bad_req = [2] if not al else al[:1] + [2]
+            for e1 in entries:
+                for e2 in entries:
+                    hist.append({"lines": [f"cfg {caps_str(al)}", f"reg w 1 {caps_str(ok_req)} none 0", e1,
+                                           f"reg w 2 {caps_str(bad_req)} none 0", e2,
+                                           f"reg w 3 {caps_str(ok_req)} none 0", e2],
+                                 "note": "exhaustive re-registration history"})
+                    hist.append({"lines": [f"cfg {caps_str(al)}", f"reg w 1 {caps_str(bad_req)} none 0", e1,
+                                           f"reg w 2 {caps_str(ok_req)} none 0", e2,
+                                           f"reg w 3 {caps_str(bad_req)} none 0", e1],
+                                 "note": "exhaustive re-registration history"})
+        return [{"name": "re-registration histories: allowed/used/re-registered outside the ceiling x entry-point pairs",
+                 "cases": hist},
+                {"name": f"ceilings x declared capability sets (subsets of 3 caps, size <= {size}) x attribute style x entry point",
                  "cases": cases}]
 
     # --- implementation -----------------------------------------------------------------------------------
